@@ -134,6 +134,7 @@ type Env struct {
 	MkInts func(int) []int
 	MkItem func(int) *Item
 	Div    func(int, int) int // panics for a zero divisor
+	EqAny  func(a, b interface{}) interface{}
 
 	log *Log
 }
@@ -203,6 +204,7 @@ func New(l *Log) *Env {
 		}
 		return out
 	}
+	e.EqAny = func(a, b interface{}) interface{} { l.add("EqAny", a, b); return a == nil || b == nil }
 	e.Div = func(a, b int) int { l.add("Div", a, b); return a / b }
 	e.MkItem = func(n int) *Item {
 		l.add("MkItem", n)
